@@ -101,7 +101,7 @@ fn link_info(doc: &Doc) -> LinkInfo {
             let c = w.next_container;
             match b {
                 Block::P(_, i) | Block::Inl(i) | Block::H(_, _, i) => inl(i, w, None, c),
-                Block::Div(_, k) | Block::Quote(_, k) => blk(k, w),
+                Block::Div(_, k) | Block::Quote(_, k) | Block::Wrap(_, _, k) => blk(k, w),
                 Block::Ul(_, it) | Block::Ol(_, _, it) => it.iter().for_each(|x| blk(&x.kids, w)),
                 Block::Dl(_, it) => it.iter().for_each(|x| blk(&x.kids, w)),
                 Block::Pre(..) => w.label_link.push(None),
